@@ -3,7 +3,10 @@ import json, os
 V = os.path.dirname(os.path.dirname(os.path.abspath(__file__)))
 props = [json.loads(l) for l in open(os.path.join(V, 'properties.jsonl'))]
 # property -> (level text, level note, technique, design_ref)
-CLAIMS = json.load(open(os.path.join(V, 'harness', 'claims.json')))
+CLAIMS = {}
+for f in sorted(os.listdir(os.path.join(V, 'harness', 'claims'))):
+    if f.endswith('.json'):
+        CLAIMS[f[:-5]] = json.load(open(os.path.join(V, 'harness', 'claims', f)))
 checks, na = [], []
 for p in props:
     pid = p['id']
